@@ -399,6 +399,12 @@ fn dump_const<'tcx>(cx: &Ctx<'tcx>, did: DefId) -> J {
     let generic = tcx.generics_of(did).requires_monomorphization(tcx);
     if generic {
         fields.push(("generic", J::Bool(true)));
+        // a const of a generic impl whose value does not depend on the parameters (`const EXTENSION_DEGREE: usize = 2`)
+        if matches!(tcx.def_kind(did), DefKind::AssocConst { .. } | DefKind::Const { .. }) {
+            if let Ok(v) = tcx.const_eval_poly(did) {
+                fields.extend(const_value_json(tcx, v, ty));
+            }
+        }
     } else if matches!(tcx.def_kind(did), DefKind::Static { .. }) {
         if let Ok(alloc) = tcx.eval_static_initializer(did) {
             let a = alloc.inner();
